@@ -39,6 +39,12 @@ type observed struct {
 	delivered int
 }
 
+func (o *observed) nDelivered() int {
+	o.mu.Lock()
+	defer o.mu.Unlock()
+	return o.delivered
+}
+
 func (o *observed) add(class, detail string) {
 	o.mu.Lock()
 	if len(o.viol) < 20 {
@@ -871,6 +877,10 @@ func mustReject() map[string]string {
 		m["depth/namespace-ext-literals-"+k] = "* NAMESPACE ((\"\" \"/\" \"X\" " + rep("({1}\r\nx ", d) + "\"v\"" + rep(")", d) + ")) NIL NIL\r\n"
 		m["depth/bodystructure-ext-literals-"+k] = "* 1 FETCH (BODYSTRUCTURE (\"text\" \"plain\" NIL NIL NIL \"7bit\" 1 1 NIL NIL NIL NIL " + rep("({1}\r\nx ", d) + "1" + rep(")", d) + "))\r\n"
 		m["depth/thread-"+k] = "* THREAD " + rep("(1 ", d) + "(2)" + rep(")", d) + "\r\n"
+		env := `(NIL NIL NIL NIL NIL NIL NIL NIL NIL NIL)`
+		m["depth/bodystructure-message-rfc822-"+k] = "* 1 FETCH (BODYSTRUCTURE " + rep(`("message" "rfc822" NIL NIL NIL "7bit" 1 `+env+" ", d) + `("text" "plain" NIL NIL NIL "7bit" 1 1)` + rep(" 1)", d) + ")\r\n"
+		m["depth/body-message-global-"+k] = "* 1 FETCH (BODY " + rep(`("message" "global" NIL NIL NIL "8bit" 1 `+env+" ", d) + `("text" "plain" NIL NIL NIL "7bit" 1 1)` + rep(" 1)", d) + ")\r\n"
+		m["depth/bodystructure-message-in-mpart-"+k] = "* 1 FETCH (BODYSTRUCTURE " + rep(`(("message" "rfc822" NIL NIL NIL "7bit" 1 `+env+" ", d) + `("text" "plain" NIL NIL NIL "7bit" 1 1)` + rep(` 1) "mixed")`, d) + ")\r\n"
 		m["depth/bodystructure-mpart-"+k] = "* 1 FETCH (BODYSTRUCTURE " + rep("(", d) + "(\"text\" \"plain\" NIL NIL NIL \"7bit\" 1 1)" + rep(" \"mixed\")", d) + ")\r\n"
 	}
 	m["literal/negative"] = "* 1 FETCH (BODY[] {-1}\r\nabc)\r\n"
@@ -937,6 +947,34 @@ func families() []family {
 	}
 }
 
+// truncatedLiteralPositions: response templates with one string position filled by the argument
+func truncatedLiteralPositions() map[string]func(lit string) string {
+	env := func(subject string) string {
+		return "(NIL " + subject + " NIL NIL NIL NIL NIL NIL NIL NIL)"
+	}
+	return map[string]func(lit string) string{
+		"list-mailbox":        func(l string) string { return "* LIST () \"/\" " + l },
+		"lsub-mailbox":        func(l string) string { return "* LSUB () \"/\" " + l },
+		"status-mailbox":      func(l string) string { return "* STATUS " + l },
+		"envelope-subject":    func(l string) string { return "* 1 FETCH (ENVELOPE " + env(l) },
+		"envelope-date":       func(l string) string { return "* 1 FETCH (ENVELOPE (" + l },
+		"envelope-addr-name":  func(l string) string { return "* 1 FETCH (ENVELOPE (NIL NIL ((" + l },
+		"bodystructure-type":  func(l string) string { return "* 1 FETCH (BODYSTRUCTURE (" + l },
+		"bodystructure-param": func(l string) string { return "* 1 FETCH (BODYSTRUCTURE (\"text\" \"plain\" (\"charset\" " + l },
+		"bodystructure-id":    func(l string) string { return "* 1 FETCH (BODYSTRUCTURE (\"text\" \"plain\" NIL " + l },
+		"namespace-prefix":    func(l string) string { return "* NAMESPACE ((" + l },
+		"metadata-mailbox":    func(l string) string { return "* METADATA " + l },
+		"metadata-value":      func(l string) string { return "* METADATA INBOX (/private/comment " + l },
+		"quotaroot-mailbox":   func(l string) string { return "* QUOTAROOT " + l },
+		"quota-root":          func(l string) string { return "* QUOTA " + l },
+		"esearch-tag":         func(l string) string { return "* ESEARCH (TAG " + l },
+		"list-oldname":        func(l string) string { return "* LIST () \"/\" x (\"OLDNAME\" (" + l },
+		"fetch-body-nstring":  func(l string) string { return "* 1 FETCH (BODY[HEADER] " + l },
+		"select-list-mailbox": func(l string) string { return "* LIST () \"/\" " + l },
+		"id-value":            func(l string) string { return "* ID (\"name\" " + l },
+	}
+}
+
 func deepProbes() map[string]func(n int) string {
 	rep := strings.Repeat
 	return map[string]func(n int) string{
@@ -969,7 +1007,7 @@ func body(w *hx.W) {
 		report(w, "probe/"+name, name, stream, o)
 		w.CaseStr("probe:" + name)
 		w.Class("probe/" + name)
-		w.Metric("delivered_messages", int64(o.delivered))
+		w.Metric("delivered_messages", int64(o.nDelivered()))
 		// the same bytes as unsolicited data (no command pending): unilateral handlers
 		_, o2 := feed(w, "probe-unsolicited/"+name, name, []byte(s), false)
 		report(w, "probe-unsolicited/"+name, name, []byte(s), o2)
@@ -1015,7 +1053,7 @@ func body(w *hx.W) {
 		report(w, class, class, stream, o)
 		w.Case(hx.HashBytes(stream))
 		w.Class(class)
-		w.Metric("delivered_messages", int64(o.delivered))
+		w.Metric("delivered_messages", int64(o.nDelivered()))
 		if k == 0 {
 			w.Sample(map[string]string{"kind": class, "stream": hx.Hex(stream, 400)})
 		}
@@ -1063,6 +1101,36 @@ func body(w *hx.W) {
 		if last > 4096 {
 			w.Violation("excessive-allocation@"+fam.name, fmt.Sprintf("family %s: %.0f bytes allocated per input byte at N=%d", fam.name, last, fam.ns[len(fam.ns)-1]), nil)
 		}
+	}
+	// 4b. literals whose announced size is far larger than the octets that follow (the server
+	// stops sending): in every position where the client buffers the literal as a string, memory
+	// must follow the bytes received, not the number announced
+	trunc := truncatedLiteralPositions()
+	ti := 0
+	for name, mk := range trunc {
+		ti++
+		if !w.Mine(ti) {
+			continue
+		}
+		base := []byte(mk("{100}\r\nabc"))
+		b1, ob := feed(w, "truncated-literal/"+name, name+" announced=100", base, true)
+		b2, _ := feed(w, "truncated-literal/"+name, name+" announced=100", base, true)
+		report(w, "truncated-literal/"+name, name+" announced=100", base, ob)
+		if b2 < b1 {
+			b1 = b2
+		}
+		for _, announced := range []string{"67108864", "2147483648", "1099511627776", "9223372036854775807"} {
+			s := []byte(mk("{" + announced + "}\r\nabc"))
+			a, o := feed(w, "truncated-literal/"+name, name+" announced="+announced, s, true)
+			report(w, "truncated-literal/"+name, name+" announced="+announced, s, o)
+			w.CaseStr("trunc:" + name + ":" + announced)
+			if a > b1+(8<<20) {
+				w.Violation("allocation-follows-announced-literal-size@"+name, fmt.Sprintf("%s: a %d-byte stream announcing a literal of %s octets (3 sent, then EOF) made the client allocate %d bytes (the same stream announcing 100 octets: %d bytes)", name, len(s), announced, a, b1),
+					map[string]interface{}{"stream": hx.Hex(s, 300), "alloc": a, "baseline": b1})
+				break
+			}
+		}
+		w.Class("truncated-literal/" + name)
 	}
 	// 5. deep nesting probes: only the stack bound matters (prompt error or fatal stack overflow of this worker)
 	di := 0
